@@ -494,6 +494,12 @@ func corpus12() []call12 {
 			[]cty.Value{cty.SetVal([]cty.Value{cty.TupleVal([]cty.Value{n(1), n(2)})}), cty.TupleVal([]cty.Value{cty.UnknownVal(cty.Number), n(2)})}},
 		{"Contains", []cty.Value{cty.SetVal([]cty.Value{cty.ListVal([]cty.Value{n(1)})}), cty.ListVal([]cty.Value{n(1)})},
 			[]cty.Value{cty.SetVal([]cty.Value{cty.ListVal([]cty.Value{n(1)})}), cty.ListVal([]cty.Value{cty.UnknownVal(cty.Number)})}},
+		// a set whose unknown member is not the one that sorts last (its length and order are not settled)
+		{"Flatten", []cty.Value{cty.SetVal([]cty.Value{s("b"), s("c")})}, []cty.Value{cty.SetVal([]cty.Value{cty.UnknownVal(cty.String), s("c")})}},
+		{"Flatten", []cty.Value{cty.TupleVal([]cty.Value{s("x"), cty.SetVal([]cty.Value{s("a"), s("b"), s("c")})})},
+			[]cty.Value{cty.TupleVal([]cty.Value{s("x"), cty.SetVal([]cty.Value{cty.UnknownVal(cty.String), s("b"), s("c")})})}},
+		{"Flatten", []cty.Value{cty.ListVal([]cty.Value{cty.SetVal([]cty.Value{n(1), n(2)}), cty.SetVal([]cty.Value{n(3)})})},
+			[]cty.Value{cty.ListVal([]cty.Value{cty.SetVal([]cty.Value{cty.UnknownVal(cty.Number), n(2)}), cty.SetVal([]cty.Value{n(3)})})}},
 		// a null of a collection or structural type, weakened to an unknown that may still be null
 		{"JSONEncode", []cty.Value{cty.NullVal(cty.List(cty.String))}, []cty.Value{cty.UnknownVal(cty.List(cty.String))}},
 		{"JSONEncode", []cty.Value{cty.NullVal(cty.EmptyObject)}, []cty.Value{cty.UnknownVal(cty.EmptyObject)}},
